@@ -132,7 +132,8 @@ def tlc(module, cfg, env=None, workers=8, timeout=900, simulate=None, deque=Fals
     meta = os.path.join(CACHE, "tlc", "meta-%s-%d" % (module, os.getpid()))
     # java is invoked directly: the main thread (which evaluates constant definitions) only gets a
     # big stack from -Xss on the command line, not from JAVA_TOOL_OPTIONS
-    cmd = ["java", "-Xss1g", "-XX:+UseParallelGC"]
+    # (the default charset of this sandbox is POSIX: specifications, stimuli and traces are UTF-8)
+    cmd = ["java", "-Xss1g", "-XX:+UseParallelGC", "-Dfile.encoding=UTF-8", "-Dstdout.encoding=UTF-8", "-Dsun.jnu.encoding=UTF-8"]
     if heap:
         cmd.append("-Xmx" + heap)
     if deque:
